@@ -4,6 +4,7 @@ import (
 	"bytes"
 	"crypto/elliptic"
 	"crypto/sha256"
+	"crypto/x509"
 	"fmt"
 	"math/big"
 	"strings"
@@ -331,6 +332,9 @@ func runC01(r *mc.Run) {
 	world.SetLogLevel(0)
 	r.Set("forgery_bound_completed", st.Bound)
 
+	// (b') the binding hash computed over ANOTHER SPELLING of the attestation key
+	c01KeyEncodings(r, lv)
+
 	// (c) message-level single-bit mutants handed to verify.TdxQuote.
 	c01MessageMutants(r, bases[0], lv)
 	// (c') structural mutations of the message (on the generated baseline and on the all-zero one)
@@ -500,6 +504,118 @@ func c01Forgery(r *mc.Run, c *mc.Ctx, base *c01base, lv []int, nl int) {
 }
 
 // sigForm rewrites a raw r||s signature.
+// c01ShapedKey grinds a key whose raw form satisfies want (deterministic: labels are tried in order).
+func c01ShapedKey(tag string, want func(raw []byte) bool) *world.Key {
+	for n := 0; ; n++ {
+		k := world.NewKey(fmt.Sprintf("c01-att-%s-%d", tag, n))
+		if want(k.Raw64()) {
+			return k
+		}
+	}
+}
+
+// c01KeyEncodings: the quote is genuine except that the PCK key holder bound (report data, QE report re-signed)
+// SHA-256 over another spelling of the attestation key followed by the auth data: minimal big-endian coordinates
+// (leading zero octets dropped: differs from the field only for 1 key in 128), SEC 1 forms, DER, hex text ... The
+// statement binds the 64-byte key field itself, so each is a forgery unless the spelling equals the field. The
+// correctly bound quote for the same key is expected to be accepted (C11 has the same obligation; here it shows the
+// section is not vacuous).
+func c01KeyEncodings(r *mc.Run, lv []int) {
+	keys := []struct {
+		name string
+		k    *world.Key
+	}{
+		{"plain", world.NewKey("att")},
+		{"x-leading-zero", c01ShapedKey("x0", func(b []byte) bool { return b[0] == 0 })},
+		{"y-leading-zero", c01ShapedKey("y0", func(b []byte) bool { return b[32] == 0 })},
+		{"x-high-bit", c01ShapedKey("xh", func(b []byte) bool { return b[0] >= 0x80 && b[32] < 0x80 })},
+		{"x-trailing-zero", c01ShapedKey("xt", func(b []byte) bool { return b[31] == 0 })},
+		{"y-trailing-zero", c01ShapedKey("yt", func(b []byte) bool { return b[63] == 0 })},
+	}
+	type enc struct {
+		name string
+		f    func(k *world.Key) []byte
+	}
+	minimal := func(b []byte) []byte { return new(big.Int).SetBytes(b).Bytes() }
+	signedMin := func(b []byte) []byte { // DER INTEGER content: a zero octet in front when the high bit is set
+		m := minimal(b)
+		if len(m) > 0 && m[0] >= 0x80 {
+			return append([]byte{0}, m...)
+		}
+		return m
+	}
+	trimRight := func(b []byte) []byte { return bytes.TrimRight(b, "\x00") }
+	encs := []enc{
+		{"field", func(k *world.Key) []byte { return k.Raw64() }},
+		{"minimal-x||minimal-y", func(k *world.Key) []byte { b := k.Raw64(); return append(minimal(b[:32]), minimal(b[32:])...) }},
+		{"minimal-x||y", func(k *world.Key) []byte { b := k.Raw64(); return append(minimal(b[:32]), b[32:]...) }},
+		{"x||minimal-y", func(k *world.Key) []byte {
+			b := k.Raw64()
+			return append(append([]byte{}, b[:32]...), minimal(b[32:])...)
+		}},
+		{"two's-complement-x||y", func(k *world.Key) []byte { b := k.Raw64(); return append(signedMin(b[:32]), signedMin(b[32:])...) }},
+		{"minimal(field)", func(k *world.Key) []byte { return minimal(k.Raw64()) }},
+		{"field-without-trailing-zeros", func(k *world.Key) []byte { return trimRight(k.Raw64()) }},
+		{"x-without-trailing-zeros||y", func(k *world.Key) []byte { b := k.Raw64(); return append(trimRight(b[:32]), b[32:]...) }},
+		{"sec1-uncompressed", func(k *world.Key) []byte { return append([]byte{4}, k.Raw64()...) }},
+		{"sec1-compressed", func(k *world.Key) []byte { return elliptic.MarshalCompressed(elliptic.P256(), k.Pub.X, k.Pub.Y) }},
+		{"der-spki", func(k *world.Key) []byte { d, _ := x509.MarshalPKIXPublicKey(&k.Pub); return d }},
+		{"hex-text", func(k *world.Key) []byte { return []byte(hexs(k.Raw64())) }},
+		{"x-only", func(k *world.Key) []byte { return k.Raw64()[:32] }},
+		{"little-endian-coordinates", func(k *world.Key) []byte {
+			b := k.Raw64()
+			v := make([]byte, 64)
+			for i := 0; i < 32; i++ {
+				v[i], v[32+i] = b[31-i], b[63-i]
+			}
+			return v
+		}},
+	}
+	auths := [][]byte{world.Fill("auth", 32), {}, {0}, append([]byte{0}, world.Fill("auth", 31)...)}
+	n := 0
+	for _, l := range lv {
+		for _, kk := range keys {
+			for ai, auth := range auths {
+				w := world.Honest("T")
+				w.Spec.AttKey, w.Spec.Auth = kk.k, auth
+				w.Parts = w.Spec.Parts()
+				raw0, reg := w.Parts.Bytes()
+				p0, err := ref.ParseQuote(raw0)
+				if err != nil {
+					r.HarnessError("c01 key-encodings: reference parser rejects the baseline: " + err.Error())
+					return
+				}
+				base := &c01base{name: kk.name, w: w, raw: raw0, reg: reg, p: p0}
+				for _, e := range encs {
+					id := fmt.Sprintf("keyenc/%s/%s/auth%d/%s", lvlName[l], kk.name, ai, e.name)
+					if !r.Want(id) {
+						continue
+					}
+					n++
+					spelled := e.f(kk.k)
+					p := w.Parts.Clone()
+					d := sha256.Sum256(append(append([]byte{}, spelled...), auth...))
+					copy(p.QEReport[320:352], d[:])
+					p.SignQE(w.PKI.LeafKey)
+					raw, _ := p.Bytes()
+					verr := verifyRawBoth(r, id, raw, w.Options(l))
+					same := bytes.Equal(d[:], p0.QEReport[320:352])
+					if same {
+						if verr != nil && !world.IsPanic(verr) {
+							r.Violate("keyenc:genuine-rejected:"+kk.name, id, "a genuine quote (attestation key "+kk.name+") is rejected: "+verr.Error(), map[string]any{"raw_quote_hex": hexs(raw)})
+						}
+						r.Eval(id, e.name != "field", "keyenc:genuine:"+verdict(verr))
+						continue
+					}
+					out := c01Judge(r, id, "keyenc:"+e.name+":", raw, verr, base, "")
+					r.Eval(id, true, "keyenc:"+out)
+				}
+			}
+		}
+	}
+	r.SectionDone(mc.Section{Name: "key-encodings", Evaluations: int64(n), Exhaustive: true})
+}
+
 func sigForm(sig []byte, mode int) []byte {
 	switch mode {
 	case 1:
